@@ -1,5 +1,8 @@
 """C20 — path integrators, numerical gradient, climbing rate, path objects, string relaxation.
 
+Round 5: translate() also writes Generated/PathSource.lean (BasePath / ISMPath / create_path as Lean definitions, proved equal
+to the hand model in Proofs/C20_Source.lean); correspond() has the `ctor` op (construction with every combination of arguments).
+
 translate(): euler, rungekutta, the component formula and default shift of central_difference, rate and climbrate of
 ISMPath.step -> Lean definitions (Generated/Integrators.lean), re-proved on every run.
 correspond(): the generated definitions on exact inputs; central_difference on arrays of every leading shape; the
@@ -4309,7 +4312,13 @@ MANIFEST = {
             'images by the tolerance (Euler); a phase that stops early stopped on that test. Relaxation to the saddle is '
             'partial (explored on the implementation, mirror-symmetric strings included). Climbing images named from the end are '
             'resolved by the model (climbImages?, pyIndex theorems); the textbook form of the Runge-Kutta step is proved to be the same '
-            'function, so rate functions that return views / one reused buffer are decided on the implementation against the exact oracle.',
+            'function, so rate functions that return views / one reused buffer are decided on the implementation against the exact oracle. '
+            'Round 5: BasePath / ISMPath / create_path are regenerated as Lean definitions as well (Generated/PathSource.lean: '
+            'setters, __init__ check order, defaults, unittangent, arccoord, energy / grad_energy / force, range check of '
+            'interpolate_path, the whole of relax with both loops and the choice of the climbing images) and each is proved equal '
+            'to the hand model (27 gen_..._eq_model obligations); end to end: for strings of any length whose ends sit at critical '
+            'points relax (any options, both integrators) returns the same number of images and the same ends; create_path '
+            'accepts exactly the documented arguments (refusal iff, which exception first).',
     'note': 'Trusted: Lean kernel + propext/Classical.choice/Quot.sound; the AST translator (harness/translate.py, '
             'props/c20.py); numpy matmul/einsum/norm, scipy CubicSpline at its knots; float rounding bounded by derived '
             'first-order bounds in the correspondence. Convergence of relax() and the re-spaced interior images of a '
